@@ -39,6 +39,7 @@ RE_LAMBDA_ALGEBRAIC_MODULE_FUNC = re.compile(r".*(lambda)(.+?):(.*[\(\[].+[\)\]]
 RE_TO_SBML = re.compile(r"([^0-9_a-zA-Z])")
 
 SBML_DOT = "__SBML_DOT__"
+_MAX_SBML_INT = 2**31 - 1
 
 
 UNARY = {
@@ -167,6 +168,9 @@ def _convert_constant(node: ast.Constant) -> libsbml.ASTNode:
         return libsbml.ASTNode(libsbml.AST_CONSTANT_FALSE)
 
     sbml_node = libsbml.ASTNode(libsbml.AST_REAL)
+    if isinstance(value, int) and abs(value) > _MAX_SBML_INT:
+        # <cn type="integer"> holds 32 bits
+        value = float(value)
     sbml_node.setValue(value)
     return sbml_node
 
